@@ -11,7 +11,7 @@ use std::sync::atomic::{AtomicUsize, Ordering};
 use std::sync::Mutex;
 use std::time::{Duration, Instant};
 
-pub const MAX_RESULT_WORDS: usize = 2 * 65536 + 16; // 4^8 cells (or lon/lat pairs)
+pub const MAX_RESULT_WORDS: usize = (1 << 20) + 16; // 4^10 words: a few deliberately big results (4^9 cells) are in the pool
 
 pub fn self_exe() -> String {
     std::env::current_exe().expect("current_exe").to_string_lossy().to_string()
